@@ -61,6 +61,14 @@ class ComponentLevel4( ComponentLevel3 ):
       s._dsl.all_update_once   |= m._dsl.update_once
       s._dsl.all_M_constraints |= m._dsl.M_constraints
 
+  # Override
+  def _uncollect_vars( s, m ):
+    super()._uncollect_vars( m )
+
+    if isinstance( m, ComponentLevel4 ):
+      s._dsl.all_update_once   -= m._dsl.update_once
+      s._dsl.all_M_constraints -= m._dsl.M_constraints
+
   def _check_upblk_calls( s ):
     all_update_once = s._dsl.all_update_once
 
